@@ -23,7 +23,8 @@ explored inputs (sampled), never by proof.
    `tag_ranges_and_span` (**partial**: assumes every capture of every match is a node range of the text,
    `sb ≤ eb ≤ |src|` — a property of the parse tree, C02): every tag the loop emits is an ignore placeholder or has
    `range.s ≤ name.s ≤ name.e ≤ range.e ≤ |src|`.  The tag range is the HULL of tag node and name node, so no
-   "ancestor-or-equal" assumption is needed.  Placeholders: `drain_skips_ignored` (**proved** for the repaired
+   "ancestor-or-equal" assumption is needed; the name may lie inside, on, in FRONT of or BEHIND the tagged node
+   (example at the end of this file; all four placements are exercised on real tags, obligation `inputs:every-name-placement`).  Placeholders: `drain_skips_ignored` (**proved** for the repaired
    drain: none is emitted).  Judge clause `range` / `ignored-emitted` on every real tag.
 2. "a line range that is the trimmed line containing the name (cut at the length limit on a character boundary)" —
    `line_range_spec` (**partial**: the row has a non-blank byte; implied by a non-blank name start; witness: all-blank
@@ -667,5 +668,17 @@ theorem tag_ranges_and_span (v : Variant) (cfg : Cfg) (src : Bytes) (ms : List M
 /-- Non-vacuity: the test matches `wm` are such captures for a one-row text of 40 bytes without newline. -/
 example : ∀ c ∈ (wm 4 7).caps, c.sb ≤ c.eb ∧ c.eb ≤ (List.replicate 40 97).length ∧
     c.sp = posOf (List.replicate 40 97) c.sb ∧ c.ep = posOf (List.replicate 40 97) c.eb := by decide
+
+/-- The hull in both directions: tagged node [4,7) with the name BEHIND it at [10,12) gives range [4,12); tagged
+node [10,12) with the name in FRONT at [4,7) gives the same hull (seeded C18-r6 dropped the `max` on the end). -/
+example :
+    (runTags {} wcfg [] [{ pat := 0, caps := [⟨1, 4, 7, ⟨0, 4⟩, ⟨0, 7⟩, false⟩, ⟨0, 10, 12, ⟨0, 10⟩, ⟨0, 12⟩, false⟩] }]).map
+      (fun t => (t.name, t.range)) = [(⟨10, 12⟩, ⟨4, 12⟩)] ∧
+    (runTags {} wcfg [] [{ pat := 0, caps := [⟨0, 4, 7, ⟨0, 4⟩, ⟨0, 7⟩, false⟩, ⟨1, 10, 12, ⟨0, 10⟩, ⟨0, 12⟩, false⟩] }]).map
+      (fun t => (t.name, t.range)) = [(⟨4, 7⟩, ⟨4, 12⟩)] := by
+  constructor <;>
+  simp [runTags, run, initSt, wcfg, flushReady, ready, processMatch, processTag, tagOf, capLoop, Cfg.lookup, qInsert, key, keyLt,
+    drain, cacheStep, utf16LenV, utf16Len, lossyUnits, slice, lineRange, docsOf, docsOfP, docTexts, joinDocs, Tag.isIgnored, usizeMax,
+    isLocal, Option.filter, scan, maxLineLen]
 
 end TsVerif.C18
